@@ -686,6 +686,8 @@ class PureInterp:
         """Interpreter-level callables (lambdas, closures, repo functions) wrapped for host builtins such as sorted(key=...)."""
         if isinstance(v, FuncInfo) or (isinstance(v, tuple) and v and v[0] in ("lambda", "closure", "bound", "memo", "partial", "hookattr")):
             return lambda *a, **k: self.apply(v, list(a), k, depth)
+        if isinstance(v, FuncRef):   # str, len, os.path.basename ... handed to a host builtin as key=/default=
+            return lambda *a, **k: self.apply(v, list(a), k, depth)
         return v
 
     def _dunder(self, obj, name):
@@ -1189,6 +1191,8 @@ class PureInterp:
                 if fn is not None:
                     try:
                         kwargs = {k: self._pycallable(v, depth) for k, v in kwargs.items()}
+                        if b in ("map", "filter", "sorted", "max", "min", "sum", "any", "all", "next", "iter"):
+                            args = [self._pycallable(v, depth) for v in args]
                         return fn(*args, **kwargs)
                     except (ValueError, TypeError) as exc:
                         raise Raised(type(exc).__name__, str(exc))
